@@ -176,8 +176,9 @@ Definition is_line_term (c : Z) : bool := (c =? 10) || (c =? 13) || (c =? 8232) 
 (* a character that may be written raw outside a class *)
 Definition lit_ok (c : Z) : bool :=
   (32 <=? c) && (c <? 55296) && negb (is_syntax c) && negb (is_line_term c).
-(* ... and raw inside a class: additionally not - (range operator; ^ [ ] \ / are excluded by lit_ok) *)
-Definition clit_ok (c : Z) : bool := lit_ok c && negb (c =? 45).
+(* ... and raw inside a class: additionally not - (range operator; ^ [ ] \ are excluded by
+   lit_ok); / may stand raw inside a class, also in a literal (7.8.5 RegularExpressionClassChar) *)
+Definition clit_ok (c : Z) : bool := (lit_ok c || (c =? 47)) && negb (c =? 45).
 (* punctuation that is written with an identity escape *)
 Definition idesc_ok (c : Z) : bool := is_syntax c || (c =? 45).
 Definition ctl_ok (k : Z) : bool := (k =? 102) || (k =? 110) || (k =? 114) || (k =? 116) || (k =? 118).
